@@ -423,7 +423,7 @@ func c10r4(c *core.Ctx) {
 		for _, s := range core.FindCalls(f, func(i ssa.Instruction) bool { return core.IsInvoke(i, qSession, "Subscribe") || core.IsInvoke(i, qSession, "Unsubscribe") }) {
 			n++
 			req := paramOfType(f, "net/http.Request")
-			ok := req != nil && sessionOfRequest(core.Receiver(s), req) && f.Name() == "Characteristics"
+			ok := req != nil && sessionOfRequest(core.Receiver(s), req) && cn(f) == "Characteristics"
 			c.Check(ok, "subscribe-caller@"+fname(f)+"/"+core.CallOf(s).Method.Name(), posOf(s), "called by the /characteristics handler on the requesting session", "subscriptions are changed outside the /characteristics handler or on another session than the requesting one")
 		}
 	}
@@ -489,7 +489,7 @@ func c10r5(c *core.Ctx) {
 		}
 		uses := false
 		core.Instrs(g, func(i ssa.Instruction) {
-			if cf := core.Callee(i); cf != nil && cf.Name() == "GetKey" {
+			if cf := core.Callee(i); cf != nil && cn(cf) == "GetKey" {
 				uses = true
 			}
 		})
